@@ -330,19 +330,23 @@ def seq_mismatch(impl_seq, model_seq, rtol=1e-9, exact_bits=44, exact=True):
     Returns None or a description."""
     if len(impl_seq) != len(model_seq):
         return 'number of iterates: impl {} model {}'.format(len(impl_seq), len(model_seq))
-    scale = Fraction(1)
     bits = 0
     for mv in model_seq:
         for v in mv:
-            scale = max(scale, abs(v))
             bits = max(bits, odd_bits(v))
-    tol = Fraction(0) if (exact and bits <= exact_bits) else Fraction(rtol) * scale
+    is_exact = exact and bits <= exact_bits
+    prev = Fraction(1)
     for k, (iv, mv) in enumerate(zip(impl_seq, model_seq)):
         iv = np.asarray(iv, dtype=float).ravel()
         if len(iv) != len(mv):
             return 'iterate {} has length impl {} model {}'.format(k, len(iv), len(mv))
         if not finite(iv):
             return 'iterate {} of the implementation is not finite'.format(k)
+        # tolerance relative to THIS iterate and its predecessor (a diverging run must not
+        # loosen the comparison of its early iterates)
+        here = max([Fraction(1)] + [abs(v) for v in mv])
+        tol = Fraction(0) if is_exact else Fraction(rtol) * max(here, prev)
+        prev = here
         for j, (a, b) in enumerate(zip(iv, mv)):
             if abs(Fraction(float(a)) - b) > tol:
                 return ('iterate {} entry {}: impl {} model {} (tol {})'.format(
@@ -354,16 +358,17 @@ def arrays_differ(a_seq, b_seq, rtol=1e-9):
     """impl-vs-impl comparison of two sequences of arrays; None or description."""
     if len(a_seq) != len(b_seq):
         return 'number of iterates {} vs {}'.format(len(a_seq), len(b_seq))
-    scale = 1.0
     for a in list(a_seq) + list(b_seq):
         if not finite(a):
             return 'non-finite iterate'
-        if len(a):
-            scale = max(scale, float(np.max(np.abs(a))))
+    prev = 1.0
     for k, (a, b) in enumerate(zip(a_seq, b_seq)):
         if a.shape != b.shape:
             return 'iterate {} shapes differ'.format(k)
-        if len(a) and float(np.max(np.abs(a - b))) > rtol * scale:
+        # per-iterate scale (this iterate and its predecessor)
+        here = max([1.0] + ([float(np.max(np.abs(a))), float(np.max(np.abs(b)))] if len(a) else []))
+        if len(a) and float(np.max(np.abs(a - b))) > rtol * max(here, prev):
             j = int(np.argmax(np.abs(a - b)))
             return 'iterate {} entry {}: {} vs {}'.format(k, j, a[j], b[j])
+        prev = here
     return None
